@@ -7,7 +7,7 @@
     is outside the model (the property says "up to rounding"). *)
 From Coq Require Import Reals List QArith Qreals.
 From SV Require Import Rot.RotBase Gen.RotFormulas_gen Rot.RotAlgebra Rot.RotAliasProofs Rot.RotEuler Rot.RotEulerProofs
-  Rot.RotDispatch Rot.RotDispatchProofs Rot.RotMixedProofs Rot.RotInplace Rot.RotCopies Rot.RotMethods Rot.RotMethodsProofs Gen.RotDispatch_gen Rot.RotGJ Rot.RotGJProofs Rot.RotGJTotal Rot.RotGJTotalProofs Rot.RotGJExample Rot.RotRoundEuler Rot.RotProperty Rot.RotState
+  Rot.RotDispatch Rot.RotDispatchProofs Rot.RotMixedProofs Rot.RotInplace Rot.RotCopies Rot.RotMethods Rot.RotMethodsProofs Gen.RotDispatch_gen Rot.RotGJ Rot.RotGJProofs Rot.RotGJTotal Rot.RotGJTotalProofs Rot.RotGJExample Rot.RotRoundEuler Rot.RotProperty Rot.RotState Rot.RotPivot
   Rot.RotReify Gen.RotReified_gen Rot.RotReifyProofs
   Rot.RotRound Rot.RotRoundProofs Rot.RotRoundFlocq Gen.RotRounded_gen Rot.RotRoundTied.
 Import ListNotations.
@@ -305,6 +305,17 @@ Theorem c04_property : forall atan2 tbl prog census methods,
   methods_ok methods = true ->
   c04_statement atan2 tbl prog census methods.
 Proof. exact c04_whole_property. Qed.
+
+(** ** Round 5: the shape of the pivot searches of inverse() (Gen/RotPivot_gen.v, read by a tolerant reader: which comparison, how
+    the largest value so far and the pivot row start, which test reports "no inverse").  An accepted shape selects a row whose
+    entry is not zero - and largest in absolute value - whenever some candidate entry is not zero; the shape of seeded fault
+    c04_6 (largest value so far seeded with the SIGNED diagonal entry) reports "no inverse" for the column (-1, 0, 0). *)
+Theorem c04_pivot_search_finds_nonzero_pivot : forall s es, pv_shape_ok s = true -> (exists e, In e es /\ e <> 0) ->
+  exists i, pv_search s es = Some i /\ (i < length es)%nat /\ nth i es 0 <> 0 /\ forall e, In e es -> Rabs e <= Rabs (nth i es 0).
+Proof. exact pv_shape_ok_finds_nonzero_pivot. Qed.
+Theorem c04_pivot_signed_seed_refuted :
+  pv_shape_ok signed_seed_shape = false /\ pv_search signed_seed_shape [-1; 0; 0] = None /\ In (-1) [-1; 0; 0] /\ -1 <> 0.
+Proof. exact signed_seed_refuted. Qed.
 
 (** ** Round 5: histories of calls.  A census of the objects of math.py that outlive a call (module-level and class-level
     mutable objects; who reads them, who updates them; caching decorators, mutable defaults, global declarations, reflective
